@@ -5,7 +5,7 @@ package ductdrv
 // Go type parameters are static, so every combinator program printed by TLC (spec/seq/DuctGen.tla) is emitted as
 // Go source by lib/fam_duct.py: one function per program that builds the morphism with the real combinators and
 // returns it together with duct.TypeOf of the type parameters of every step.  The generated files register their
-// programs in `programs`; this file (copied next to them into ./gen/ductprog) runs each program
+// programs in `programs`; this file (copied next to them into ./gen/ductprog/sNN) runs each program
 //   - with a recording visitor that never fails, and
 //   - with a visitor that fails at callback position k, for every k = 1..number of callbacks of the full visit,
 // rebuilding the morphism for every visit (each intermediate morphism is used once), and writes what it observed
